@@ -73,7 +73,7 @@ static void grids_T(const GridsC &c, vf::Obs &o) {
   bool differs = true;
   GridC gm = mutate(c.g, c.mut, c.mutpos, lo, hi, differs);
   auto g1 = make_grid<T>(c.g);
-  auto g2 = make_grid<T>(gm);
+  auto g2 = make_equal_grid<T>(gm);  // (a zero point of the other sign: irrelevant where gm differs, meaningful for the equal-in-a-distinct-object mutation)
   VCHECK(o, (g1 != g2) == differs && (g1 == g2) == !differs, "harness/Grid: grids compare " << (g1 == g2 ? "equal" : "different") << " but were built " << (differs ? "different" : "equal"));
   // clamp windows to the respective grids
   auto clamp = [](SplineC s, size_t n) {
